@@ -139,17 +139,8 @@ func run(rt *rapid.T, disciplined bool) {
 				continue
 			}
 			e := gen.Pick(rt, es, "same")
-			if gen.Chance(rt, 50, "weightonly") {
-				w := wmkit.GenWeight(rt)
-				if w == e.Weight {
-					w++
-				}
-				m.Reweigh(e, w)
-				gcAfterChange = 0
-			} else {
-				m.Logf("(rewrite same value)")
-				m.Rewrite(e)
-			}
+			m.Logf("(rewrite same value)")
+			m.Rewrite(e)
 		case k < 72 && !unwritten:
 			pending = m.CommitTrie(gen.Pick(rt, []int{0, 0, 1, 2, 3, 64}, "level"))
 			pendingModel = copyModel(m.Model)
